@@ -5,7 +5,8 @@ From Coq Require Import List Arith Bool Lia Permutation.
 From Conductor Require Import Model.Reaper.
 Import ListNotations.
 
-Definition isExit (e : revent) : bool := match e with EvExit _ _ => true | _ => false end.
+(* the events of the environment (a child exits; a child is stopped or continued): everything else is a step of the program *)
+Definition isExit (e : revent) : bool := match e with EvExit _ _ | EvStop => true | _ => false end.
 
 Record RInv (s : rstate) : Prop := {
   j_cover : zombies s <> [] -> kpending s = true \/ tripped s = true;
@@ -38,6 +39,7 @@ Proof.
     + intros _ Ht. congruence.
   - destruct (pc_eqb (pc s) PRead); [|discriminate]. destruct (pipe s); [discriminate|].
     inversion H; subst s'. constructor; cbn; auto; discriminate.
+  - inversion H; subst s'. constructor; cbn; auto.
 Qed.
 
 Lemma rrun_inv tr : forall s s', RInv s -> rrun false s tr = Some s' -> RInv s'.
@@ -77,6 +79,7 @@ Proof.
     rewrite E, <- !app_assoc. apply Permutation_app_head. cbn.
     symmetry. apply Permutation_middle.
   - destruct (pc_eqb _ _); [|discriminate]. destruct (pipe s); [discriminate|]. inversion H; subst s'. cbn. now rewrite app_nil_r.
+  - inversion H; subst s'. cbn. now rewrite ?app_nil_r.
 Qed.
 
 Theorem exits_conserved b tr : forall s s',
